@@ -2,7 +2,10 @@
 import sys, os, json, faulthandler
 if os.environ.get("FAULT"): faulthandler.dump_traceback_later(int(os.environ["FAULT"]), exit=True)
 sys.path.insert(0, os.path.dirname(os.path.abspath(__file__)))
-import lib, check, registry
+import lib
+if os.environ.get('DEVRUN_TREE'):   # development only: triage a patched scratch worktree without touching /repo (bin/check never sets this)
+    sys.path.insert(0, os.path.join(os.environ['DEVRUN_TREE'], 'python'))
+import check, registry
 fam = registry.FAMILIES[sys.argv[1]]
 tier = sys.argv[2] if len(sys.argv) > 2 else 'quick'
 prop = sys.argv[3] if len(sys.argv) > 3 else 'ALL'
